@@ -2,13 +2,18 @@
 """benign_check.py <dir of *.diff>: behaviour-preserving edits must never produce a VIOLATION (exit 1); exit 2 (undecided) is tolerated."""
 import json, os, subprocess, sys
 d = sys.argv[1]
+# optional: `benign_check.py DIR K N` runs every N-th patch starting at K against a scratch checkout named by VERIF_REPO (with
+# VERIF_WORK / VERIF_EVID set), so that several shards can run side by side without touching /repo or the committed evidence
+shard = (int(sys.argv[2]), int(sys.argv[3])) if len(sys.argv) > 3 else None
+REPO = os.environ.get('VERIF_REPO', '/repo')
 man = json.load(open('/verif/MANIFEST.json'))
 props = [c['property_id'] for c in man['checks']]
 bad = 0
-for f in sorted(os.listdir(d)):
-    if not f.endswith('.diff'):
-        continue
-    p = subprocess.run(['git', '-C', '/repo', 'apply', os.path.join(d, f)], capture_output=True, text=True)
+allf = sorted(x for x in os.listdir(d) if x.endswith('.diff'))
+if shard:
+    allf = allf[shard[0]::shard[1]]
+for f in allf:
+    p = subprocess.run(['git', '-C', REPO, 'apply', os.path.join(d, f)], capture_output=True, text=True)
     if p.returncode:
         print(f, 'does not apply'); continue
     res = {}
@@ -22,9 +27,10 @@ for f in sorted(os.listdir(d)):
             elif r.returncode == 2:
                 print('  undecided', f, pid, [l[:230] for l in r.stdout.splitlines() if l.startswith('UNDECIDED')][:1])
     finally:
-        subprocess.run(['git', '-C', '/repo', 'checkout', '--', '.'])
+        subprocess.run(['git', '-C', REPO, 'checkout', '--', '.'])
     print(f, {k: v for k, v in res.items() if v})
 print('violations on benign edits:', bad)
 # evidence files written while a change was applied are not evidence about the tree: restore the committed ones
 import subprocess as _sp
-_sp.run(['git', '-C', '/verif', 'checkout', '--', 'evidence'])
+if 'VERIF_EVID' not in os.environ:
+    _sp.run(['git', '-C', '/verif', 'checkout', '--', 'evidence'])
